@@ -75,7 +75,15 @@ def specSend (s : SendState) (op : String) (impl : List String) : SendState × L
       let atts := rest.filter (fun t => !t.startsWith "dials=")
       let copies := (atts.filter (fun t => t.endsWith ":1")).length
       let multi := atts.any (fun t => t.startsWith "d" && !t.endsWith ":1")
+      -- a path that can dial (a TCP backend, a reconnectable client, a fail-over with a secondary) and a destination
+      -- that accepts: whatever the cached connections do, the send must succeed
+      let canDial := match s.target with
+        | .backend _ => true
+        | .client t => t.reconnectable
+        | .failover f => (f.secondary.map (·.reconnectable)).getD false
+        | .none => false
       let errs :=
+        (if res == "err" && canDial && s.listenerUp && !s.listenerReset then ["C20 healthy-destination-and-a-path-that-can-dial-but-the-send-failed"] else []) ++
         (if res == "ok" && copies != 1 then ["C20 success-but-not-written-exactly-once"] else []) ++
         (if res == "err" && copies != 0 then ["C20 error-reported-but-message-was-written"] else []) ++
         (if multi then ["C20 duplicate-on-one-connection"] else []) ++
